@@ -202,6 +202,9 @@ class Report:
         evidence['wall_s'] = round(time.time() - self.t0, 2)
         evidence['violations'] = len(self.violations)
         cov = evidence.setdefault('coverage', {})
+        q = cov.get('queries')
+        if isinstance(q, dict) and q.get('xcheck_disagree', 0) > 0:
+            self.broken.append({'why': 'another solver (z3 4.8.12 / cvc5) disagreed with a verdict; see .work/xdisagree/', 'count': q['xcheck_disagree']})
         cov['known_findings_hit'] = {k: len(v) for k, v in self.known_hit.items()}
         cov['inconclusive'] = len(self.inconclusive)
         if self.inconclusive:
